@@ -8,25 +8,34 @@ from names import *
 
 
 def finalise_gates(fx, rule="R-ORDER"):
-    """(b) each finalisation helper is guarded by its own flag with the right polarity."""
+    """(b) each finalisation helper is guarded by its own flag with the right polarity -- on the inlined view of
+    the handle's Drop (the flag may be read through an accessor method of Config)."""
+    import views
     obs = []
     table = [("libfs::common::copy_permissions", "no_perms", False),
              ("libfs::common::copy_timestamps", "no_timestamps", False),
              ("libfs::common::copy_owner", "ownership", True),
              ("libfs::common::sync", "fsync", True)]
+    dv = views.drop_view(fx)
+    if dv is None:
+        return [anchor_ob(rule, DROP)]
     for callee, field, want in table:
-        # anchored on the *effect*: wherever libxcp performs it
-        hits = 0
-        for f in ro.fns_in_scope(fx, crates=("libxcp",)):
-            ps = ro.performers(fx, f, callee, direct_only=True)
-            for n, (bi, t, how) in enumerate(ps):
-                hits += 1
-                ok, why = q.gated(f, bi, CONFIG, field, want)
-                obs.append(Ob(rule, mkkey(rule, f.path, callee, n, "gated:%s=%s" % (field, want)), ok, q.loc_of(t),
-                              f.path, "%s must run iff config.%s == %s: %s" % (callee.split("::")[-1], field, want, why),
-                              None if ok else dict(block="bb%d" % bi), ))
-        if hits == 0:
-            obs.append(anchor_ob(rule, "no call to %s in libxcp" % callee, "all libxcp functions"))
+        ps = ro.performers(fx, dv, callee, direct_only=True)
+        seen = set()
+        n = 0
+        for (bi, t, how) in ps:
+            sid = views.site(dv, bi)
+            ok, why = q.gated(dv, bi, CONFIG, field, want)
+            if sid in seen and ok:
+                continue
+            seen.add(sid)
+            obs.append(Ob(rule, mkkey(rule, "handle-drop", callee, n, "gated:%s=%s" % (field, want)), ok, q.loc_of(t),
+                          DROP, "%s must run iff config.%s == %s: %s" % (callee.split("::")[-1], field, want, why),
+                          None if ok else dict(block="bb%d" % bi), ))
+            n += 1
+        if not ps:
+            obs.append(anchor_ob(rule, "dropping the handle calls %s" % callee))
+        # and nowhere else in libxcp (callers_within in ownership_facts confines the call sites to the Drop)
     return obs
 
 
